@@ -58,7 +58,9 @@ Net(n) ==
             [vars |-> <<"x1", "x2">>, pars |-> <<"k1", "k2">>,
              rxns |-> <<Rx("v1", Mul(k1, x1), X1X2), Rx("v2", Mul(k2, x2), X2X1)>>,
              ss |-> ("x1" :> Div(Mul(Sym("T"), k2), Add(k1, k2))) @@ ("x2" :> Div(Mul(Sym("T"), k1), Add(k1, k2))),
-             cons |-> <<[name |-> "T", members |-> <<"x1", "x2">>]>>, init |-> <<>>, vals |-> <<>>]
+             cons |-> <<[name |-> "T", members |-> <<"x1", "x2">>]>>, init |-> <<>>,
+             \* ZERO is a regular value of a state (an empty pool): of the supplied state and of the model's own
+             vals |-> ("x2" :> {RZero, RInt(3)})]
       [] n = "ia" ->     \* closed power-law loop whose INITIAL VALUES are assignment rules of parameters:
                          \* x1(0) = frac * T, x2(0) = T - x1(0).  "At the given state" with variables=None is the model's
                          \* initial state computed ONCE: elasticities stay PARTIAL derivatives (state held fixed), so
@@ -125,7 +127,7 @@ ScaledIsOrder == Done =>
 
 QuotExact == Done =>
     \A r \in RxnSet : \A s \in VarSet \cup ParSet :
-        Deg(Rate(N, r), s) <= 2 => Quot(Rate(N, r), s, env, R(1, 10)) = Unscaled(N, r, s, env)
+        (Deg(Rate(N, r), s) <= 2 /\ ~RIsZero(env[s])) => Quot(Rate(N, r), s, env, R(1, 10)) = Unscaled(N, r, s, env)
 
 SteadyIsSteady == (Done /\ HasSS(N)) => \A x \in VarSet : Rhs(N, x, SSEnv(N, PEnv)) = RZero
 
